@@ -17,6 +17,7 @@ The compiler's implicit transaction is an open block whose baseline is `base`
 import EdbVerif.Lemmas.Tx
 import EdbVerif.Lemmas.TxProto
 import EdbVerif.Lemmas.TxPool
+import EdbVerif.Lemmas.TxDetached
 
 namespace EdbVerif.C09
 open EdbVerif.Tx
@@ -173,9 +174,10 @@ PostgreSQL-style session; `PSpec.covers` is the envelope:
   ending the block (`stay = false`) — but not on START / savepoint commands (see the
   counterexamples below), and not on ROLLBACK or on a COMMIT that leaves the backend in the
   block (`stay = true`): those detach the compiler's current `Transaction` object from the id
-  the server keeps sending; the spec below says what must happen then (only ROLLBACK / ROLLBACK
-  TO are accepted and they must work), `exDetached*` check it on the model by `decide`, the
-  harness checks it on the real code (corpus/C09/regressions.json), the theorem does not cover it;
+  the server keeps sending; the spec says what must happen then (only ROLLBACK / ROLLBACK TO
+  are accepted and they must work); `detached_rescue` proves the two steps that matter,
+  `detached_later_savepoint_counterexample` shows where it fails, the harness checks the rest on
+  the real code (corpus/C09/regressions.json);
 * compilation may fail anywhere;
 * no RELEASE removes a savepoint whose name is also carried by a savepoint that stays.
 
@@ -244,13 +246,61 @@ example : ((PSpec.init ⟨1, 2, 3, 4⟩).run exP).2.map (·.cls) =
     [.ok, .ok, .ok, .ok, .ok, .ok, .failed, .rejected, .ok, .ok, .ok, .ok, .rejected] ∧
     ((PSpec.init ⟨1, 2, 3, 4⟩).run exP).1 = PSpec.out ⟨5, 6, 7, 4⟩ := by decide
 
-/-! ### Tested, not proved: COMMIT / ROLLBACK failing while the backend stays in the block
+/-! ### COMMIT / ROLLBACK failing while the backend stays in the block (detached transaction)
 
 After `ROLLBACK TO a` the server's transaction id is the savepoint's.  The compiler compiles
 COMMIT (or ROLLBACK) — `commit_tx` / `rollback_tx` swap in a fresh implicit `Transaction` — the
-backend fails and stays in the block.  The next `compile_in_tx` must bring the old explicit
-transaction back (`sync_tx → sync_to_savepoint: self._current_tx = sp.tx`): ROLLBACK TO works,
-savepoint/COMMIT/START are refused because the block is aborted, ROLLBACK leaves. -/
+backend fails and stays in the block (`SEv.detaching`).  The next `compile_in_tx` must bring the
+old explicit transaction back (`sync_tx → sync_to_savepoint: self._current_tx = sp.tx`):
+ROLLBACK TO works, savepoint/COMMIT/START are refused because the block is aborted, ROLLBACK
+leaves.  Proved: the two steps that matter (below).  Tested only: longer stays in the detached
+state and the `_try_compile_rollback` escape (server id not a savepoint id). -/
+
+/-- From any healthy coupled state inside a block whose server-side id is a savepoint id
+    (`hsp`: an earlier ROLLBACK TO) with no savepoint declared since (`hH`; without it the
+    statement is false, see `detached_later_savepoint_counterexample`): the detaching failure
+    agrees with the spec (compiled against the exposed payload, outcome failed, block aborted),
+    the rescue statement — ROLLBACK, or ROLLBACK TO any name — is accepted or refused exactly as
+    the spec says, and an accepted rescue lands in a coupled state again. -/
+theorem detached_rescue (S : Server) (p : PSpec) (hR : Rel S p) (hin : S.inTx = true)
+    (hf : p.failed = false) (e1 : SEv) (hd : e1.detaching = true)
+    (hsp : ∃ q ∈ S.sps, q.spid = S.txid) (hH : ∀ q ∈ S.sps, q.spid ≤ S.txid)
+    (e2 : SEv) (he2 : e2.stmt = .rollback ∨ ∃ n, e2.stmt = .rollbackTo n) :
+    (S.step e1).2.agrees { cls := (p.step e1).2, exposed := p.exposed, healthy := p.healthy } ∧
+    ((S.step e1).1.step e2).2.agrees
+      { cls := ((p.step e1).1.step e2).2, exposed := (p.step e1).1.exposed,
+        healthy := (p.step e1).1.healthy } ∧
+    (((S.step e1).1.step e2).2.outcome = .ok →
+      Rel ((S.step e1).1.step e2).1 ((p.step e1).1.step e2).1) :=
+  Tx.detached_rescue hR hin hf e1 hd hsp hH e2 he2
+
+/-- Without `hH` it is false, on the real code too (key `proto:detached-later-savepoint`):
+    `START; SAVEPOINT 1; ROLLBACK TO 1; query; SAVEPOINT 2; COMMIT [fails, backend stays in the
+    block]; ROLLBACK TO 2`.  PostgreSQL still has savepoint 2.  `sync_to_savepoint(id of 1)`
+    re-attaches the old transaction but purges every savepoint with a larger id from it and from
+    the log, so the compiler refuses the rescue. -/
+def cexDetachedLater : List SEv :=
+  [ { stmt := .start }, { stmt := .declare 1 }, { stmt := .rollbackTo 1 }, { stmt := .query },
+    { stmt := .declare 2 }, { stmt := .commit, bf := true, stay := true }, { stmt := .rollbackTo 2 } ]
+
+theorem detached_later_savepoint_counterexample :
+    ((Server.runAll (Server.init ⟨1, 2, 3, 4⟩) cexDetachedLater).2.getLast?.map (·.outcome)) =
+      some (.rejected .inTxError) ∧
+    (((PSpec.init ⟨1, 2, 3, 4⟩).run cexDetachedLater).2.getLast?.map (·.cls)) = some .ok := by
+  decide
+
+/-- Without `hsp` (no ROLLBACK TO yet in the block: the server's id is the START id, the
+    `_try_compile_rollback` escape serves the rescue without looking at the state) the MODEL
+    accepts `ROLLBACK TO` of a released name that the server's stack still lists.  This is a
+    limit of the model, not a finding: the real backend refuses that SQL before
+    `rollback_tx_to_savepoint` runs, and the model's backend never refuses a statement by
+    itself.  (The escape with a live name, and ROLLBACK, agree with the spec — tested.) -/
+example :
+    let h : List SEv := [ { stmt := .start }, { stmt := .declare 1 }, { stmt := .release 1 },
+      { stmt := .commit, bf := true, stay := true }, { stmt := .rollbackTo 1 } ]
+    ((Server.runAll (Server.init ⟨1, 2, 3, 4⟩) h).2.getLast?.map (·.outcome)) = some .ok ∧
+    (((PSpec.init ⟨1, 2, 3, 4⟩).run h).2.getLast?.map (·.cls)) = some .rejected := by
+  decide
 
 def exDetachedCommit : List SEv :=
   [ { stmt := .start }, { stmt := .declare 1 }, { stmt := .upd (.schema 5 6) }, { stmt := .rollbackTo 1 },
